@@ -1,6 +1,6 @@
 (** Non-vacuity for C12: readers satisfying the hypotheses, and concrete runs of the model. *)
 From Coq Require Import NArith List Lia.
-From FF Require Import Lib.Word Gen.Consts_device_acpi_aml Aml.Stream Aml.Lex Aml.LexProofs Aml.Tree Aml.TreeSpec Aml.Parser Aml.ParserProofs Aml.ParserProofsTop Aml.ParserTotalBase Aml.ParserTotalFirst Aml.ParserTotalConn Aml.ParserTotalTop Aml.ParserTotalNonNamed Aml.ParserTotalCalls Aml.ParserTotalReloc Aml.ParserTotalMerge Aml.ParserTotalResolve Aml.ParserTotalLex Aml.ParserTotalTree Aml.ParserTotalDefer Aml.ParserTotalDeferW Aml.ParserTotalDeferV Aml.ParserTotalTyped Aml.ParserTotalShape Aml.ParserTotalChain Aml.ParserTotalConn2 Aml.ParserTotalPass2 Aml.ParserTotalBenign Aml.ParserTotalFirst2 Aml.ParserTotalFreeName Aml.ParserTotalPass1.
+From FF Require Import Lib.Word Gen.Consts_device_acpi_aml Aml.Stream Aml.Lex Aml.LexProofs Aml.Tree Aml.TreeSpec Aml.Parser Aml.ParserProofs Aml.ParserProofsTop Aml.ParserTotalBase Aml.ParserTotalFirst Aml.ParserTotalConn Aml.ParserTotalTop Aml.ParserTotalNonNamed Aml.ParserTotalCalls Aml.ParserTotalReloc Aml.ParserTotalMerge Aml.ParserTotalResolve Aml.ParserTotalLex Aml.ParserTotalTree Aml.ParserTotalDefer Aml.ParserTotalDeferW Aml.ParserTotalDeferV Aml.ParserTotalTyped Aml.ParserTotalShape Aml.ParserTotalChain Aml.ParserTotalConn2 Aml.ParserTotalPass2 Aml.ParserTotalBenign Aml.ParserTotalFirst2 Aml.ParserTotalPass1 Aml.ParserTotalHandle Aml.ParserTotalLoad Aml.ParserTotalMeth.
 Import ListNotations.
 Local Open Scope N_scope.
 
@@ -320,7 +320,6 @@ Example C12_never_panics_nonvacuous :
     glive g 0 /\ groot g 0 /\
     (exists o, TreeSpec.get tree 0 = Some o /\ o_opcode o = aml_pOpIntScopeBlock) /\
     TM2 tree g /\
-    (forall i o, TreeSpec.get tree i = Some o -> o_opcode o = opFreed -> name_lead (o_name o) = false) /\
     (forall i o, TreeSpec.get tree i = Some o -> o_opcode o <> opFreed -> o_opcode o = aml_pOpIntNamePathOrMethodCall ->
                  exists tbl sl, o_value o = Some (VBytes tbl sl)) /\
     pool_ok [] tree /\
@@ -330,3 +329,63 @@ Example C12_never_panics_nonvacuous :
      L + L * (8 * N.of_nat (length data) + 3) + 4 <= InvalidIndex) /\
     match parseAML_body 200 (init_state tree [] 1 data) with Ok (b, s') => b = true /\ lp s' = 4 | _ => False end.
 Proof. exact parseAML_hyps_example. Qed.
+
+(** ---- the load sequence: the hypotheses of C12_parse_total_load_never_panics_mod ([SEQ]: the sizes and the Method residue at each
+    step) are satisfiable - two tables over the default scopes, Name(AAAA, One) and Scope(\_SB_) { Name(BBBB, Zero) }; both load
+    (outcome class 0), the pools hold 9 and 15 objects ---- *)
+Definition lx_p1 : list N := [0x08; 0x41; 0x41; 0x41; 0x41; 0x01].
+Definition lx_p2 : list N := [0x10; 0x0c; 0x5c; 0x5f; 0x53; 0x42; 0x5f; 0x08; 0x42; 0x42; 0x42; 0x42; 0x00].
+Definition lx_s1 : pstate := Eval vm_compute in
+  match parseAML ds_tree [] 1 (table_image lx_p1) with Ok (_, s) => s | _ => init_state ds_tree [] 1 [] end.
+Definition lx_s2 : pstate := Eval vm_compute in
+  match parseAML (p_tree lx_s1) [table_image lx_p1] 2 (table_image lx_p2) with Ok (_, s) => s | _ => init_state ds_tree [] 1 [] end.
+Lemma lx_e1 : parseAML ds_tree [] 1 (table_image lx_p1) = Ok (true, lx_s1).
+Proof. vm_compute. reflexivity. Qed.
+Lemma lx_e2 : parseAML (p_tree lx_s1) [table_image lx_p1] 2 (table_image lx_p2) = Ok (true, lx_s2).
+Proof. vm_compute. reflexivity. Qed.
+
+Ltac lx_nomethod s :=
+  let g' := fresh "g" in let HR := fresh "HR" in let m := fresh "m" in let mo := fresh "mo" in let Hm := fresh "Hm" in let Hop := fresh "Hop" in
+  intros g' HR m mo Hm Hop; exfalso; revert m mo Hm Hop;
+  apply (pool_cases (p_tree s) (fun m mo => o_opcode mo = aml_pOpMethod -> False));
+  let n := fresh "n" in let o := fresh "o" in let Hn := fresh "Hn" in let Hop := fresh "Hop" in
+  intros n o Hn Hop;
+  do 16 (destruct n as [|n]; [vm_compute in Hn; first [discriminate | (inversion Hn; subst o; vm_compute in Hop; discriminate)]|]);
+  vm_compute in Hn; destruct n; discriminate.
+Ltac lx_fits := split; [split; [vm_compute; repeat constructor|vm_compute; discriminate]|vm_compute; discriminate].
+
+Example C12_load_sequence_nonvacuous :
+  SEQ ds_tree [] 1 [lx_p1; lx_p2] /\ fst (fst (load [lx_p1; lx_p2])) = 0.
+Proof.
+  split; [|vm_compute; reflexivity].
+  cbn [SEQ]. cbv zeta. split; [lx_fits|].
+  intros s E. rewrite lx_e1 in E. assert (Es : s = lx_s1) by congruence. subst s. clear E. split; [unfold RES; lx_nomethod lx_s1|].
+  split; [lx_fits|].
+  intros s E. change ([] ++ [table_image lx_p1]) with [table_image lx_p1] in E. change (1 + 1) with 2 in E.
+  rewrite lx_e2 in E. assert (Es : s = lx_s2) by congruence. subst s. clear E. split; [unfold RES; lx_nomethod lx_s2|exact I].
+Qed.
+
+(** the hypotheses of C12_parse_total_partial_resolveMethodCalls_keeps_methods / _connectNonNamedObjArgs_keeps_methods are satisfiable by a
+    pool that DOES hold a Method (root scope, Method with its name path and flags byte); both passes return ok on it *)
+Example C12_keeps_methods_nonvacuous :
+  R (p_tree mx_state) mx_ghost /\
+  (forall i o, TreeSpec.get (p_tree mx_state) i = Some o -> o_opcode o <> opFreed -> opInfo (o_infoIndex o) <> None) /\
+  pool_ok (p_tables mx_state) (p_tree mx_state) /\
+  (forall i o, TreeSpec.get (p_tree mx_state) i = Some o -> o_opcode o <> opFreed -> o_opcode o = aml_pOpIntNamePathOrMethodCall ->
+               exists tbl sl, o_value o = Some (VBytes tbl sl)) /\
+  glive mx_ghost 0 /\ groot mx_ghost 0 /\ TM3 (p_tree mx_state) mx_ghost /\
+  (exists m mo, TreeSpec.get (p_tree mx_state) m = Some mo /\ o_opcode mo = aml_pOpMethod) /\
+  match resolveMethodCalls 10 0 mx_state with Ok (r, _) => r = ROk | _ => False end /\
+  match connectNonNamedObjArgs 10 0 mx_state with Ok (r, _) => r = ROk | _ => False end.
+Proof. exact mx_hyps. Qed.
+
+(** the size hypothesis [SEQ3] of C12_parse_total_load_never_panics_mod_deferred holds for the same two tables, and [INV3] holds for the
+    default scopes *)
+Example C12_load_sequence_deferred_nonvacuous :
+  INV3 ds_tree ds_ghost [] 1 /\ SEQ3 ds_tree [] 1 [lx_p1; lx_p2] /\ fst (fst (load [lx_p1; lx_p2])) = 0.
+Proof.
+  split; [exact ds_INV3|]. split; [|vm_compute; reflexivity].
+  cbn [SEQ3]. cbv zeta. split; [lx_fits|].
+  intros s E. rewrite lx_e1 in E. assert (Es : s = lx_s1) by congruence. subst s. clear E.
+  split; [lx_fits|]. intros s _. exact I.
+Qed.
